@@ -85,6 +85,21 @@ MUTANTS = [
 """, """    for combination in itertools.product(*generators_dict.values()):
         yield dict(zip(keys, combination))
 """)]},
+    {"name": "revert_conclusion_clear_in_finally", "expect": ["C04"], "campaigns": "rules (thorough finds it; rare in quick)",
+     "edits": [("conclusion_selector.py", """                try:
+                    yield left_value
+                finally:
+                    self._conclusion_.clear()
+""", """                yield left_value
+                self._conclusion_.clear()
+"""), ("conclusion_selector.py", """                try:
+                    yield output
+                finally:
+                    # also when the consumer stops iterating or raises while applying the conclusions
+                    self._conclusion_.clear()
+""", """                yield output
+                self._conclusion_.clear()
+""")]},
     # ---------------------------------------------------------------- new mutants
     {"name": "and_does_not_restore_left_eval_parent", "expect": ["C05"],
      "edits": [(S, """                finally:
